@@ -47,53 +47,9 @@ fn c01_match_entry() {
     }
 }
 
-fn prf(mk: u64, t: u8) -> PrfHybridReport<BA8, BA3> {
-    PrfHybridReport {
-        match_key: mk,
-        value: Replicated::new(BA3::ZERO, BA3::ZERO),
-        breakdown_key: Replicated::new(BA8::truncate_from(u128::from(t)), BA8::ZERO),
-    }
-}
-
-/// BOUNDED (<= 3 reports, match keys in {0,1}): the grouping over the real BTreeMap returns one pair per key
-/// that occurs exactly twice, keys ascending, each pair in arrival order.
-#[kani::proof]
-#[kani::unwind(10)]
-#[kani::solver(kissat)]
-fn c01_group_pairs_small() {
-    let n: usize = kani::any();
-    kani::assume(n <= 3);
-    let keys: [u64; 3] = kani::any();
-    kani::assume(keys[0] < 2 && keys[1] < 2 && keys[2] < 2);
-    let mut v = Vec::with_capacity(3);
-    let mut count = [0usize; 2];
-    let mut first = [0u8; 2];
-    let mut second = [0u8; 2];
-    for i in 0..3 {
-        if i < n {
-            let k = keys[i] as usize;
-            if count[k] == 0 {
-                first[k] = i as u8 + 1;
-            } else if count[k] == 1 {
-                second[k] = i as u8 + 1;
-            }
-            count[k] += 1;
-            v.push(prf(keys[i], i as u8 + 1));
-        }
-    }
-    kani::cover!(n == 3 && count[0] == 2);
-    kani::cover!(n == 2 && count[1] == 2);
-    let out = group_report_pairs_ordered(v);
-    let expect = usize::from(count[0] == 2) + usize::from(count[1] == 2);
-    assert!(out.len() == expect);
-    if expect == 1 {
-        let k = if count[0] == 2 { 0 } else { 1 };
-        assert!(tag(&out[0][0]) == u128::from(first[k]) && tag(&out[0][1]) == u128::from(second[k]));
-    }
-}
-
-// Units that feed k reports with one match key through `group_report_pairs_ordered` (k = 2, 3, 5, 6, concrete) were
-// written after seeded change C01-1 and do not close: the real BTreeMap does not finish in 15 min even for k = 2.
+// Units that drive `group_report_pairs_ordered` itself (<= 3 reports over 2 keys with symbolic keys; k = 2, 3, 5, 6 reports
+// of one key, concrete -- the latter written after seeded change C01-1) do not close: the real BTreeMap gives no verdict
+// in 15-30 min even for 2 reports. Only the MatchEntry state machine is under contract.
 
 #[cfg(test)]
 include!(concat!(env!("IPA_VERIF_DIR"), "/.build/playback/agg.rs"));
